@@ -1,1 +1,467 @@
-def main : IO Unit := IO.println "ok"
+/-
+  Line-protocol driver for the core model: one PDL program (JSON) per input line, one JSON
+  observation list per output line.  See harness/pdl.md for the format.  This file is glue
+  (parsing, printing, the concrete library of user callables); it contains no model logic.
+-/
+import Lean.Data.Json
+import LabreaModel.Eval
+open Lean Labrea
+
+/-! ### JSON ⇄ V -/
+
+partial def vOfJson (j : Json) : V :=
+  match j with
+  | .null => .none
+  | .bool b => .bool b
+  | .num n => .int n.mantissa   -- integers only (exponent 0)
+  | .str s => .str s
+  | .arr a => .list (a.toList.map vOfJson)
+  | .obj _ =>
+    match j.getObjValAs? String "$" with
+    | .ok tag =>
+      let arr (k : String) : List V := match j.getObjVal? k with
+        | .ok (.arr a) => a.toList.map vOfJson
+        | _ => []
+      let kvs (k : String) : List (String × V) := match j.getObjVal? k with
+        | .ok (.arr a) => a.toList.filterMap fun p => match p with
+          | .arr #[.str n, v] => some (n, vOfJson v)
+          | _ => Option.none
+        | _ => []
+      let f : String := (j.getObjValAs? String "f").toOption.getD ""
+      match tag with
+      | "tuple" => .tuple (arr "v")
+      | "set" => .set (arr "v")
+      | "app" => .app f (arr "a") (kvs "k")
+      | "fn" => .fn f (arr "a") (kvs "k")
+      | "comp" => .comp (arr "v")
+      | "missing" => .missing
+      | "dict" => .dict (kvs "v")
+      | _ => .none
+    | .error _ =>
+      match j with
+      | .obj o => .dict (o.toList.map fun (k, v) => (k, vOfJson v))
+      | _ => .none
+
+def sortByKey {α} (xs : List (String × α)) : List (String × α) :=
+  xs.mergeSort (fun a b => decide (a.1 ≤ b.1))
+
+partial def jsonOfV : V → Json
+  | .none => .null
+  | .bool b => .bool b
+  | .int i => .num (JsonNumber.fromInt i)
+  | .str s => .str s
+  | .list xs => .arr (xs.map jsonOfV).toArray
+  | .dict kvs => Json.mkObj ((sortByKey kvs).map fun (k, v) => (k, jsonOfV v))
+  | .tuple xs => Json.mkObj [("$", "tuple"), ("v", .arr (xs.map jsonOfV).toArray)]
+  | .set xs =>
+    let js := (xs.map fun x => let j := jsonOfV x; (j.compress, j))
+    Json.mkObj [("$", "set"), ("v", .arr ((sortByKey js).map Prod.snd).toArray)]
+  | .app f a k => Json.mkObj [("$", "app"), ("f", .str f), ("a", .arr (a.map jsonOfV).toArray),
+      ("k", .arr ((sortByKey k).map fun (n, v) => Json.arr #[.str n, jsonOfV v]).toArray)]
+  | .fn f a k => Json.mkObj [("$", "fn"), ("f", .str f), ("a", .arr (a.map jsonOfV).toArray),
+      ("k", .arr ((sortByKey k).map fun (n, v) => Json.arr #[.str n, jsonOfV v]).toArray)]
+  | .comp fs => Json.mkObj [("$", "comp"), ("v", .arr (fs.map jsonOfV).toArray)]
+  | .missing => Json.mkObj [("$", "missing")]
+
+/-! ### The concrete library of user callables (each has an identical Python twin in
+    harness/pylib.py) -/
+
+def asInt? : V → Option Int
+  | .int i => some i
+  | .bool b => some (if b then 1 else 0)
+  | _ => Option.none
+
+def prim (p : String) (args : List V) : Except String V :=
+  match p, args with
+  | "ident", [x] => .ok x
+  | "const", [v, _] => .ok v
+  | "not", [x] => .ok (.bool (!x.truthy))
+  | "truthy", [x] => .ok (.bool x.truthy)
+  | "eq", [v, x] => .ok (.bool (pyEq x v))
+  | "ne", [v, x] => .ok (.bool (!pyEq x v))
+  | "neg", [x] => match asInt? x with
+    | some i => .ok (.int (-i))
+    | Option.none => .error "TypeError"
+  | "lt", [n, x] => match asInt? x, asInt? n with
+    | some a, some b => .ok (.bool (a < b))
+    | _, _ => match x, n with
+      | .str a, .str b => .ok (.bool (a < b))
+      | _, _ => .error "TypeError"
+  | "gt", [n, x] => match asInt? x, asInt? n with
+    | some a, some b => .ok (.bool (a > b))
+    | _, _ => match x, n with
+      | .str a, .str b => .ok (.bool (a > b))
+      | _, _ => .error "TypeError"
+  | "add", [n, x] => match asInt? x, asInt? n with
+    | some a, some b => .ok (.int (a + b))
+    | _, _ => match x, n with
+      | .str a, .str b => .ok (.str (a ++ b))
+      | .list a, .list b => .ok (.list (a ++ b))
+      | .tuple a, .tuple b => .ok (.tuple (a ++ b))
+      | _, _ => .error "TypeError"
+  | "isin", [c, x] => match pyIn x c with
+    | some b => .ok (.bool b)
+    | Option.none => .error "TypeError"
+  | "len", [x] => match x with
+    | .str s => .ok (.int s.length)
+    | .list xs | .tuple xs | .set xs => .ok (.int xs.length)
+    | .dict kvs => .ok (.int kvs.length)
+    | _ => .error "TypeError"
+  | "pair", [a, x] => .ok (.tuple [a, x])
+  | "tostr", [x] => .ok (.str (pyStr x))
+  | _, _ => .error "TypeError"
+
+structure FnSpec where
+  kind : String            -- free | const | prim
+  p : String := ""
+  v : V := .none
+  raiseCls : String := ""
+  raiseAlways : Bool := false
+  raiseOn : List V := []
+
+def fnSpecOfJson (j : Json) : FnSpec :=
+  let kind := (j.getObjValAs? String "t").toOption.getD "free"
+  let p := (j.getObjValAs? String "p").toOption.getD ""
+  let v := match j.getObjVal? "v" with | .ok x => vOfJson x | _ => V.none
+  match j.getObjVal? "raise" with
+  | .ok r =>
+    let cls := (r.getObjValAs? String "cls").toOption.getD "ValueError"
+    match r.getObjVal? "on" with
+    | .ok (.arr a) => { kind, p, v, raiseCls := cls, raiseOn := a.toList.map vOfJson }
+    | _ => { kind, p, v, raiseCls := cls, raiseAlways := true }
+  | _ => { kind, p, v }
+
+def mkBeta (fns : List (String × FnSpec)) : String → List V → List (String × V) → Except String V :=
+  fun name args kw =>
+    match fns.find? (fun q => q.1 == name) with
+    | Option.none =>
+      -- undeclared names are primitives called by name
+      prim name args
+    | some (_, spec) =>
+      let vals := args ++ kw.map Prod.snd
+      if spec.raiseAlways || vals.any (fun x => spec.raiseOn.any (pyEq x)) then .error spec.raiseCls
+      else match spec.kind with
+        | "const" => .ok spec.v
+        | "prim" => prim spec.p args
+        | _ => .ok (.app name args kw)
+
+/-! ### PDL program → model -/
+
+structure Prog where
+  nodes : Std.HashMap Nat Json := {}
+  ovs : List (Nat × Json) := []     -- static part: dispatch/dflt node ids
+  binds : List (Nat × Json) := []
+  fns : List (String × FnSpec) := []
+
+abbrev DsRecJ := Nat × List Nat × Nat × V × V × Nat × Bool × String
+
+/-- mutable (between operations) part of the environment -/
+structure Dyn where
+  ov : List (Nat × (Nat × List (V × Nat) × Option Nat)) := []   -- dispatch nid, table, dflt nid
+  ds : List (Nat × DsRecJ) := []
+  cacheKinds : List (Nat × CacheKind) := []
+
+def natOf (j : Json) (k : String) : Nat := (j.getObjValAs? Nat k).toOption.getD 0
+def optNatOf (j : Json) (k : String) : Option Nat := (j.getObjValAs? Nat k).toOption
+def strOf (j : Json) (k : String) : String := (j.getObjValAs? String k).toOption.getD ""
+def boolOf (j : Json) (k : String) : Bool := (j.getObjValAs? Bool k).toOption.getD false
+def valOf (j : Json) (k : String) : V := match j.getObjVal? k with | .ok x => vOfJson x | _ => V.none
+def arrOf (j : Json) (k : String) : List Json := match j.getObjVal? k with | .ok (.arr a) => a.toList | _ => []
+def natList (j : Json) (k : String) : List Nat := (arrOf j k).filterMap fun x => (x.getNat?).toOption
+def pairList (j : Json) (k : String) : List (Json × Json) :=
+  (arrOf j k).filterMap fun x => match x with | .arr #[a, b] => some (a, b) | _ => Option.none
+
+partial def buildExpr (p : Prog) (nid : Nat) : Expr :=
+  match p.nodes[nid]? with
+  | Option.none => .value nid .none
+  | some j =>
+    let sub (k : String) : Expr := buildExpr p (natOf j k)
+    let osub (k : String) : Option Expr := (optNatOf j k).map (buildExpr p)
+    let subs (k : String) : List Expr := (natList j k).map (buildExpr p)
+    let named (k : String) : List (String × Expr) := (pairList j k).filterMap fun (a, b) =>
+      match a, b.getNat? with
+      | .str n, .ok i => some (n, buildExpr p i)
+      | _, _ => Option.none
+    match strOf j "k" with
+    | "value" => .value nid (valOf j "v")
+    | "option" => .option nid (strOf j "key") (osub "dflt") (osub "dom")
+    | "apply" => .apply nid (sub "e") (sub "f")
+    | "bind" => .bind nid (sub "e") (natOf j "b")
+    | "switch" => .switch nid (sub "d")
+        ((pairList j "lookup").filterMap fun (a, b) => match b.getNat? with
+          | .ok i => some (vOfJson a, buildExpr p i) | _ => Option.none) (osub "dflt")
+    | "case" => .caseWhen nid (sub "d")
+        ((pairList j "cases").filterMap fun (a, b) => match a.getNat?, b.getNat? with
+          | .ok x, .ok y => some (buildExpr p x, buildExpr p y) | _, _ => Option.none) (osub "dflt")
+    | "coalesce" => .coalesce nid (subs "ms")
+    | "iter" => .iter nid (subs "es")
+    | "map" => .map nid (sub "e") (named "its")
+    | "template" => .template nid (strOf j "t") (named "params")
+    | "with" => .withOptions nid (sub "e") (valOf j "p") (boolOf j "force")
+    | "all" => .allOptions nid
+    | "cached" => .cached nid (sub "e") (natOf j "cache")
+    | "logged" => .logged nid (sub "e") (strOf j "msg")
+    | "computation" => .computation nid (sub "e") (subs "effects")
+    | "funapp" => .funApp nid (sub "f") (subs "args") (named "kw")
+    | "partial" => .partialApp nid (sub "f") (subs "args") (named "kw")
+    | "step" => .pipelineStep nid (sub "step")
+    | "pipeline" => .pipeline nid (sub "tail") (osub "rest")
+    | "overloaded" => .overloaded nid (natOf j "ov")
+    | "dataset" => .dataset nid (natOf j "ds")
+    | "namespace" => .namespace nid (strOf j "key") (named "members")
+    | _ => .value nid .none
+
+def mkEnv (p : Prog) (d : Dyn) (cacheOff logOff : Bool) (subst : Option (Nat × V)) : Env where
+  β := mkBeta p.fns
+  binds := fun k v =>
+    match p.binds.find? (fun q => q.1 == k) with
+    | Option.none => .error "TypeError"
+    | some (_, j) =>
+      let table := (pairList j "table").filterMap fun (a, b) => match b.getNat? with
+        | .ok i => some (vOfJson a, i) | _ => Option.none
+      match table.find? (fun q => pyEq q.1 v) with
+      | some (_, i) => .ok (buildExpr p i)
+      | Option.none => match optNatOf j "dflt" with
+        | some i => .ok (buildExpr p i)
+        | Option.none => .error (let c := strOf j "cls"; if c == "" then "ValueError" else c)
+  ov := fun k =>
+    match d.ov.find? (fun q => q.1 == k) with
+    | some (_, (disp, table, dflt)) =>
+      { dispatch := buildExpr p disp, table := table.map fun (v, i) => (v, buildExpr p i),
+        dflt := dflt.map (buildExpr p) }
+    | Option.none => { dispatch := .value 0 .missing, table := [], dflt := Option.none }
+  ds := fun k =>
+    match d.ds.find? (fun q => q.1 == k) with
+    | some (_, (ov, effects, cache, opts, dopts, cb, effOff, msg)) =>
+      { ov, effects := effects.map (buildExpr p), cache, options := opts, defaultOptions := dopts,
+        callback := buildExpr p cb, effectsDisabled := effOff, msg }
+    | Option.none => default
+  cacheKind := fun c => match d.cacheKinds.find? (fun q => q.1 == c) with
+    | some (_, k) => k
+    | Option.none => .memory
+  cacheCtxOff := cacheOff
+  logCtxOff := logOff
+  subst := subst
+
+/-! ### Printing observations -/
+
+def clsName : ErrCls → String
+  | .evaluation => "EvaluationError"
+  | .keyNotFound => "KeyNotFoundError"
+  | .switchErr => "SwitchError"
+  | .caseWhenErr => "CaseWhenError"
+  | .insufficient => "InsufficientInformationError"
+  | .other c => c
+
+def declared (i : Nat) : Nat := if i ≥ 1000000 then 0 else i
+
+def jsonOfErr (e : Err) : Json :=
+  .arr (e.map fun f => Json.arr #[.str (clsName f.cls), toJson (declared f.src), .str f.key]).toArray
+
+def jsonOfEvents (evs : List Event) : List (String × Json) :=
+  let evs := evs.reverse
+  let calls := evs.filterMap fun
+    | .call f a k => some (Json.arr #[.str f, .arr (a.map jsonOfV).toArray,
+        .arr ((sortByKey k).map fun (n, v) => Json.arr #[.str n, jsonOfV v]).toArray])
+    | _ => Option.none
+  let cache := evs.filterMap fun
+    | .cacheOp c op fp res => some (Json.arr #[toJson c, .str op, jsonOfV fp, .str res])
+    | _ => Option.none
+  let logs := evs.filterMap fun
+    | .log msg emitted => some (Json.arr #[.str msg, .bool emitted])
+    | _ => Option.none
+  let reqs := evs.filterMap fun
+    | .req op node => if declared node == 0 then Option.none else some (Json.arr #[.str op, toJson node])
+    | _ => Option.none
+  let reads := (evs.filterMap fun
+    | .read k => some k
+    | .readAll => some "*"
+    | _ => Option.none).eraseDups
+  let tchk := evs.filterMap fun
+    | .typeCheck node => if declared node == 0 then Option.none else some (toJson node)
+    | _ => Option.none
+  [("calls", .arr calls.toArray), ("cache", .arr cache.toArray), ("log", .arr logs.toArray),
+   ("req", .arr reqs.toArray), ("reads", .arr ((sortStrings reads).map Json.str).toArray),
+   ("tchk", .arr tchk.toArray)]
+
+def opOfString : String → Option Op
+  | "evaluate" => some .evaluate
+  | "validate" => some .validate
+  | "keys" => some .keys
+  | "explain" => some .explain
+  | _ => Option.none
+
+def faultOfString : String → Fault
+  | "miss" => .miss | "lieExists" => .lieExists | "failGet" => .failGet | "forget" => .forget
+  | _ => .behave
+
+def FUEL : Nat := 400
+
+def dynUpdate {α} (xs : List (Nat × α)) (k : Nat) (v : α) : List (Nat × α) :=
+  if xs.any (fun q => q.1 == k) then xs.map fun q => if q.1 == k then (k, v) else q else xs ++ [(k, v)]
+
+def runOp (p : Prog) (dyn : Dyn) (st : St) (j : Json) : Dyn × St × Json :=
+  let opName := strOf j "op"
+  let okJ := Json.mkObj [("ok", true)]
+  match opOfString opName with
+  | some op =>
+    let subst := match j.getObjVal? "subst" with
+      | .ok (.arr #[a, b]) => (a.getNat?).toOption.map fun i => (i, vOfJson b)
+      | _ => Option.none
+    let env := mkEnv p dyn (boolOf j "cache_off") (boolOf j "log_off") subst
+    let e := buildExpr p (natOf j "n")
+    match ev env FUEL op e (valOf j "o") { st with events := [] } with
+    | Option.none => (dyn, st, Json.mkObj [("r", Json.arr #["fuel"])])
+    | some (r, st') =>
+      let rj := match r with
+        | .ok v => Json.arr #["ok", jsonOfV v]
+        | .error err => Json.arr #["err", jsonOfErr err]
+      (dyn, { st' with events := [] }, Json.mkObj (("r", rj) :: jsonOfEvents st'.events))
+  | Option.none =>
+    match opName with
+    | "transform" =>
+      let env := mkEnv p dyn (boolOf j "cache_off") (boolOf j "log_off") Option.none
+      let e := buildExpr p (natOf j "n")
+      let m : M V := do
+        let f ← ev env FUEL .evaluate e (valOf j "o")
+        call env f [valOf j "x"] []
+      match m { st with events := [] } with
+      | Option.none => (dyn, st, Json.mkObj [("r", Json.arr #["fuel"])])
+      | some (r, st') =>
+        let rj := match r with
+          | .ok v => Json.arr #["ok", jsonOfV v]
+          | .error err => Json.arr #["err", jsonOfErr err]
+        (dyn, { st' with events := [] }, Json.mkObj (("r", rj) :: jsonOfEvents st'.events))
+    | "register" =>
+      let k := natOf j "ov"
+      match dyn.ov.find? (fun q => q.1 == k) with
+      | some (_, (disp, table, dflt)) =>
+        let key := valOf j "key"
+        let nid := natOf j "n"
+        -- `{**self.lookup, key: value}` with Python hash-equality of keys
+        let table' := if table.any (fun q => pyEq q.1 key) then
+            table.map fun q => if pyEq q.1 key then (q.1, nid) else q
+          else table ++ [(key, nid)]
+        ({ dyn with ov := dynUpdate dyn.ov k (disp, table', dflt) }, st, okJ)
+      | Option.none => (dyn, st, Json.mkObj [("ok", false)])
+    | "set_dispatch" =>
+      let dsid := natOf j "ds"
+      match dyn.ds.find? (fun q => q.1 == dsid) with
+      | some (_, (ov, effects, cache, opts, dopts, cb, effOff, msg)) =>
+        let (_, table, dflt) := match dyn.ov.find? (fun q => q.1 == ov) with
+          | some (_, r) => r
+          | Option.none => (0, [], Option.none)
+        let newOv := natOf j "ov"
+        ({ dyn with ov := dynUpdate dyn.ov newOv (natOf j "dispatch", table, dflt),
+                    ds := dynUpdate dyn.ds dsid (newOv, effects, cache, opts, dopts, cb, effOff, msg) }, st, okJ)
+      | Option.none => (dyn, st, Json.mkObj [("ok", false)])
+    | "add_effect" =>
+      let dsid := natOf j "ds"
+      match dyn.ds.find? (fun q => q.1 == dsid) with
+      | some (_, (ov, effects, cache, opts, dopts, cb, effOff, msg)) =>
+        ({ dyn with ds := dynUpdate dyn.ds dsid (ov, effects ++ [natOf j "n"], cache, opts, dopts, cb, effOff, msg) }, st, okJ)
+      | Option.none => (dyn, st, Json.mkObj [("ok", false)])
+    | "effects_disabled" =>
+      let dsid := natOf j "ds"
+      match dyn.ds.find? (fun q => q.1 == dsid) with
+      | some (_, (ov, effects, cache, opts, dopts, cb, _, msg)) =>
+        ({ dyn with ds := dynUpdate dyn.ds dsid (ov, effects, cache, opts, dopts, cb, boolOf j "v", msg) }, st, okJ)
+      | Option.none => (dyn, st, Json.mkObj [("ok", false)])
+    | "set_cache" =>
+      let dsid := natOf j "ds"
+      match dyn.ds.find? (fun q => q.1 == dsid) with
+      | some (_, (ov, effects, _, opts, dopts, cb, effOff, msg)) =>
+        ({ dyn with ds := dynUpdate dyn.ds dsid (ov, effects, natOf j "cache", opts, dopts, cb, effOff, msg) }, st, okJ)
+      | Option.none => (dyn, st, Json.mkObj [("ok", false)])
+    | "with_options" =>
+      let dsid := natOf j "ds"
+      match dyn.ds.find? (fun q => q.1 == dsid) with
+      | some (_, (ov, effects, cache, opts, dopts, cb, _, msg)) =>
+        let pv := valOf j "p"
+        let rec' := if boolOf j "default" then (ov, effects, cache, opts, mix dopts pv, cb, false, strOf j "msg")
+                    else (ov, effects, cache, mix opts pv, dopts, cb, false, strOf j "msg")
+        let _ := msg
+        ({ dyn with ds := dynUpdate dyn.ds (natOf j "new") rec' }, st, okJ)
+      | Option.none => (dyn, st, Json.mkObj [("ok", false)])
+    | "reset" => (dyn, { st with caches := [] }, okJ)
+    | "script" =>
+      let c := natOf j "cache"
+      let faults := (arrOf j "faults").map fun x => faultOfString ((x.getStr?).toOption.getD "")
+      (dyn, { st with scripts := dynUpdate st.scripts c faults }, okJ)
+    | _ => (dyn, st, Json.mkObj [("ok", false), ("unknown", .str opName)])
+
+def runProgram (j : Json) : Json :=
+  let nodes : Std.HashMap Nat Json := (arrOf j "nodes").foldl (fun m n => m.insert (natOf n "id") n) {}
+  let p : Prog := {
+    nodes
+    binds := (arrOf j "binds").map fun b => (natOf b "id", b)
+    fns := (pairList j "fns").filterMap fun (a, b) => match a with
+      | .str n => some (n, fnSpecOfJson b) | _ => Option.none }
+  let dyn : Dyn := {
+    ov := (arrOf j "ovs").map fun o => (natOf o "id",
+      (natOf o "dispatch",
+       (pairList o "table").filterMap (fun (a, b) => match b.getNat? with
+          | .ok i => some (vOfJson a, i) | _ => Option.none),
+       optNatOf o "dflt"))
+    ds := (arrOf j "dss").map fun d => (natOf d "id",
+      (natOf d "ov", natList d "effects", natOf d "cache", valOf d "options", valOf d "default_options",
+       natOf d "callback", boolOf d "effects_disabled", strOf d "msg"))
+    cacheKinds := (pairList j "caches").filterMap fun (a, b) => match a.getNat?, b with
+      | .ok c, .str "nocache" => some (c, CacheKind.nocache)
+      | .ok c, .str "scripted" => some (c, CacheKind.scripted)
+      | .ok c, _ => some (c, CacheKind.memory)
+      | _, _ => Option.none }
+  let (_, _, outs) := (arrOf j "ops").foldl (fun (acc : Dyn × St × List Json) op =>
+    let (d, s, o) := runOp p acc.1 acc.2.1 op
+    (d, s, o :: acc.2.2)) (dyn, ({} : St), [])
+  .arr outs.reverse.toArray
+
+/-- `prim` mode: one `[name, [args…]]` per line → result (used to tie the primitive library and
+    the layer-0 functions to their Python twins) -/
+def runPrim (j : Json) : Json :=
+  match j with
+  | .arr #[.str name, .arr args] =>
+    let a := args.toList.map vOfJson
+    let strArg (i : Nat) : String := match a[i]? with | some (.str s) => s | _ => ""
+    let r : Except String V :=
+      match name with
+      | "getDotted" => match getDotted (strArg 0) (a[1]?.getD .none) with
+        | .found v => .ok (.tuple [.str "found", v])
+        | .keyErr => .ok (.tuple [.str "KeyError"])
+        | .typeErr => .ok (.tuple [.str "TypeError"])
+      | "mix" => .ok (mix (a[0]?.getD .none) (a[1]?.getD .none))
+      | "setDotted" => match a[2]? with
+        | some (V.dict d) => match setPath (splitKey (strArg 0)) (a[1]?.getD .none) d with
+          | some d' => .ok (.dict d')
+          | Option.none => .error "TypeError"
+        | _ => .error "TypeError"
+      | "findKeys" => .ok (.list ((findKeys (strArg 0)).map V.str))
+      | "resolve" => match resolveR 200 (a[0]?.getD .none) (a[1]?.getD .none) with
+        | Option.none => .error "fuel"
+        | some (.ok v, rd) => .ok (.tuple [v, .list (rd.map V.str)])
+        | some (.error (.key k), _) => .error ("KeyError:" ++ k)
+        | some (.error .type, _) => .error "TypeError"
+      | "pyStr" => .ok (.str (pyStr (a[0]?.getD .none)))
+      | "pyEq" => .ok (.bool (pyEq (a[0]?.getD .none) (a[1]?.getD .none)))
+      | _ => prim name a
+    match r with
+    | .ok v => Json.arr #["ok", jsonOfV v]
+    | .error e => Json.arr #["err", .str e]
+  | _ => Json.arr #["err", "bad-line"]
+
+partial def loop (h : IO.FS.Stream) (f : Json → Json) : IO Unit := do
+  let line ← h.getLine
+  if line.isEmpty then return ()
+  if line.trimAscii.isEmpty then
+    IO.println "null"
+  else
+    match Json.parse line with
+    | .ok j => IO.println (f j).compress
+    | .error e => IO.println (Json.mkObj [("parse_error", .str e)]).compress
+  loop h f
+
+def main (args : List String) : IO Unit := do
+  let h ← IO.getStdin
+  match args with
+  | ["prim"] => loop h runPrim
+  | _ => loop h runProgram
